@@ -484,4 +484,51 @@ def toMathBig (l : Lit) (t : BigTarget) : Option BigRes :=
     | .float => bigFloat l
   | _ => none
 
+
+/-! ## fast/binary.go `Comp.prepareShift`: untyped constant shifted by a TYPED constant count
+
+`x << T(c)` / `const k T = c; x << k` reach `Comp.Shl`/`Shr` -> `prepareShift` (the count is not untyped):
+* `xet := xe.DefaultType()` must be an integer type: only Int and Rune constants pass;
+* the count being constant (`ye.Const()`), it is re-wrapped as an untyped Int
+  `constant.MakeUint64(xr.ValueOf(ye.Value).Uint())` and handed to `ShiftUntyped`.
+  `reflect.Value.Uint()` panics on a signed value, so a count of a signed type is an error (finding).
+The typed constant `T(c)` itself is `Lit.Convert` (`convert`). -/
+def shiftTypedCount (op : BinOp) (x count : Lit) (t : IntT) : Option Lit :=
+  match convert count (.int t) with
+  | some (.int n) =>
+    if isIntKind x.kind then
+      if t.signed then none
+      else shiftUntyped op x ⟨.int, .int n⟩
+    else none
+  | _ => none
+
+/-! ## fast/literal.go `makeMathBigFun`: every execution of a compiled conversion to *big.Int/Rat/Float
+returns a fresh duplicate of the constant (`var b big.Int; b.Set(a); return &b` inside the closure).
+The heap is a list of cells, a pointer is an index. -/
+
+structure BigHeap where
+  cells : List BigRes
+  deriving Repr
+
+/-- one execution of the closure returned by `makeMathBigFun(val)`: allocate, copy the constant -/
+def execBigFun (c : BigRes) (h : BigHeap) : BigHeap × Nat :=
+  (⟨h.cells ++ [c]⟩, h.cells.length)
+
+/-- the program modifies the object in place (`x.Add(x, x)`, any function of the old value) -/
+def BigHeap.modify (h : BigHeap) (p : Nat) (f : BigRes → BigRes) : BigHeap :=
+  ⟨h.cells.modify p f⟩
+
+def BigHeap.get (h : BigHeap) (p : Nat) : Option BigRes := h.cells[p]?
+
+/-- run the compiled conversion `n` times, modifying each result in place after it was produced;
+    returns the final heap and, per execution, the pointer and the value read right after the execution -/
+def runBigFun (c : BigRes) (f : BigRes → BigRes) : Nat → BigHeap → BigHeap × List (Nat × Option BigRes)
+  | 0, h => (h, [])
+  | n + 1, h =>
+    let (h1, p) := execBigFun c h
+    let v := h1.get p
+    let h2 := h1.modify p f
+    let (h3, rest) := runBigFun c f n h2
+    (h3, (p, v) :: rest)
+
 end Untyped
